@@ -16,7 +16,7 @@ def run(ctx):
     scns = []
     def add(**kw):
         s = {"sc": len(scns), "id": "Chrome-133", "advertised": [1, 2, 3], "alg": 1, "chain": 0, "flush_every": 0, "flush_num": 0, "flush_den": 0,
-             "level": 6, "decl_delta": 0, "decl_huge": False, "corrupt": "", "drop_ext": False, "zwindow": 0, "client_auth": 0}
+             "level": 6, "decl_delta": 0, "decl_huge": False, "corrupt": "", "drop_ext": False, "zwindow": 0, "client_auth": 0, "advertised0": []}
         s.update(kw)
         scns.append(s)
     sizes = {1: 0, 2: 20, 3: 70}          # abstract length class -> extra certificates in the chain (~0.5 kB, ~9 kB, ~30 kB)
@@ -56,6 +56,11 @@ def run(ctx):
             for ca in (1, 2):
                 add(id=i, alg=alg, client_auth=ca)
                 add(id=i, alg=alg, client_auth=ca, chain=20, flush_every=100)
+        # a first build advertised more than the hello that is finally sent: the server uses what only the first build had
+        for alg in (1, 2, 3):
+            rest = [x for x in (1, 2, 3) if x != alg]
+            add(id=i, alg=alg, advertised=rest, advertised0=[1, 2, 3])
+            add(id=i, alg=rest[0], advertised=rest, advertised0=[1, 2, 3])
         add(id=i, alg=4, advertised=[1, 2, 3])           # an algorithm nobody advertised or implements
         for alg in (1, 2, 3):
             add(id=i, alg=alg, drop_ext=True)             # extension removed from the hello after it was built (also C12)
